@@ -19,6 +19,10 @@ pub enum Wait {
     None,
     Zero,
     Ms(u64),
+    /// max_wait_duration(Duration::MAX): "wait for ever" written as a duration
+    Forever,
+    /// max_wait_duration(Duration::ZERO) instead of reject_when_full()
+    ZeroDuration,
 }
 
 #[derive(Clone, Debug, Serialize, Deserialize)]
@@ -44,6 +48,9 @@ pub struct BhCase {
     /// callers keep the resolved response future alive for this long before dropping it
     #[serde(default)]
     pub hold: Option<u64>,
+    /// order in which the builder setters are called (see gen::apply_in_order)
+    #[serde(default)]
+    pub setter_order: u8,
 }
 
 fn case_strategy(tier: Tier) -> BoxedStrategy<BhCase> {
@@ -56,6 +63,8 @@ fn case_strategy(tier: Tier) -> BoxedStrategy<BhCase> {
         2 => Just(Wait::Zero),
         3 => (1u64..=6).prop_map(|k| Wait::Ms(k * 10)),
         2 => (1u64..=80).prop_map(Wait::Ms),
+        1 => Just(Wait::Forever),
+        1 => Just(Wait::ZeroDuration),
     ];
     let caller = (
         gen::instant(80),
@@ -85,14 +94,16 @@ fn case_strategy(tier: Tier) -> BoxedStrategy<BhCase> {
         prop::collection::vec(caller, 2..=callers_hi),
         prop::collection::vec(any::<u8>(), 0..=48),
         prop_oneof![3 => Just(None), 1 => (1u64..=40).prop_map(Some)],
+        0u8..4,
     )
-        .prop_map(|(max, wait, clones, callers, order, hold)| BhCase {
+        .prop_map(|(max, wait, clones, callers, order, hold, setter_order)| BhCase {
             max,
             wait,
             clones,
             callers,
             order,
             hold,
+            setter_order,
         })
         .boxed()
 }
@@ -187,21 +198,30 @@ async fn interp(case: &BhCase) -> Verdict {
                 .unwrap_or(gate_step)
         })
     };
-    let mut b = BulkheadLayer::builder().max_concurrent_calls(case.max);
-    b = match case.wait {
-        Wait::None => b,
-        Wait::Zero => b.reject_when_full(),
-        Wait::Ms(ms) => b.max_wait_duration(Duration::from_millis(ms)),
-    };
-    let layer = b.build();
+    let (cfg_max, cfg_wait) = (case.max, case.wait);
+    let layer = gen::apply_in_order(
+        BulkheadLayer::builder(),
+        vec![
+            Box::new(move |b| b.max_concurrent_calls(cfg_max)),
+            Box::new(move |b| match cfg_wait {
+                Wait::None => b,
+                Wait::Zero => b.reject_when_full(),
+                Wait::Ms(ms) => b.max_wait_duration(Duration::from_millis(ms)),
+                Wait::Forever => b.max_wait_duration(Duration::MAX),
+                Wait::ZeroDuration => b.max_wait_duration(Duration::ZERO),
+            }),
+        ],
+        case.setter_order,
+    )
+    .build();
     let base1 = layer.layer(inner1.clone());
     let base2 = layer.layer(inner2.clone());
     let mut clones1: Vec<_> = (0..case.clones).map(|_| base1.clone()).collect();
     let mut clones2: Vec<_> = (0..case.clones).map(|_| base2.clone()).collect();
 
     let wait_ms: Option<u64> = match case.wait {
-        Wait::None => None,
-        Wait::Zero => Some(0),
+        Wait::None | Wait::Forever => None,
+        Wait::Zero | Wait::ZeroDuration => Some(0),
         Wait::Ms(ms) => Some(ms),
     };
 
